@@ -722,6 +722,7 @@ package graphql
 //@ func fingerprintWriter.writeSelectionSet
 //@   props C06 C13
 //@   nosafety
+//@   assigns class:fingerprintWriter.visited, class:M|string|bool
 //@   opt invoke.Write=pure
 //@   loop 1 ensures typeis(isel, "*ast.Field") && as(isel, "*ast.Field").Alias != nil && as(isel, "*ast.Field").Name != nil ==> calls("writeString") >= atloop(1, calls("writeString")) + 2
 //@   loop 1 ensures typeis(isel, "*ast.FragmentSpread") && as(isel, "*ast.FragmentSpread").Name != nil ==> calls("writeFragmentBody") == atloop(1, calls("writeFragmentBody")) + 1
